@@ -51,6 +51,23 @@ Theorem C02_no_reexec : forall orc s a i t st tk,
   g_execs (step orc s a) = g_execs s \/ exists p, g_execs (step orc s a) = p :: g_execs s /\ p <> (i, t).
 Proof. exact recorded_result_not_reexecuted. Qed.
 
+(* once a message's handling has committed (its id carries a processed mark) it stays processed in EVERY continuation
+   of the run, and any later delivery of that row - whatever happened in between - changes no stage, status, flag,
+   claim, mark or ledger entry *)
+Theorem C02_processed_forever : forall orc s id acts do_ack r,
+  mem_nat id (w_processed s) = true ->
+  let s1 := run orc s acts in
+  mem_nat id (w_processed s1) = true /\
+  (find_row s1 id = Some r -> (q_attempts r < queue_max_attempts)%Z ->
+   let s' := step orc s1 (Deliver id do_ack) in
+   w_stages s' = w_stages s1 /\ w_status s' = w_status s1 /\ w_canceled s' = w_canceled s1 /\ g_execs s' = g_execs s1
+   /\ w_processed s' = w_processed s1 /\ w_next s' = w_next s1 /\ w_claims s' = w_claims s1).
+Proof.
+  intros orc s id acts do_ack r H s1.
+  assert (mem_nat id (w_processed s1) = true) as H1 by (apply processed_run_mono; exact H).
+  split; [exact H1|]. intros Hr Ha. apply processed_delivery_frame with r; assumption.
+Qed.
+
 (* An invariant of EVERY run - any workflow, any task behaviour, any list of deliveries in any order, redeliveries,
    crash cuts, sweeps, cancels, signals, pauses, restarts - proved by induction over the action list with no premise:
    queue row ids are unique and below the allocator, and so is every processed mark. *)
@@ -79,5 +96,6 @@ Print Assumptions C02_dup_noop.
 Print Assumptions C02_no_rearm_without_jump.
 Print Assumptions C02_completed_survives.
 Print Assumptions C02_no_reexec.
+Print Assumptions C02_processed_forever.
 Print Assumptions C02_ids_invariant.
 Print Assumptions C02_fresh_message_not_deduplicated.
